@@ -160,6 +160,7 @@ type c20H struct {
 	strictChecked  int
 	strictSkipped  int
 	waitOutcomes   [4]int
+	retireModes    [3]int
 	pathsTaken     []string
 	resets         int
 
@@ -615,8 +616,23 @@ func (h *c20H) startRetirement() {
 		}
 	}
 	h.retire = append(h.retire, rt)
-	old := control.VerifC20RetiringPlane(func() { h.retireGate(rt) })
-	h.m.startControlPlaneRetirement(h.log, old, nil, func() { rt.cancelled = true }, false, true)
+	// environment of the retirement (cost-free choice; the canonical representative is the first alternative):
+	//  0  stale connections are aborted at once (no dialer overlap between the generations)
+	//  1  graceful drain (dialer overlap, no abort file) while one session of the old generation never ends; the reload
+	//     was fast, part of the retirement budget is left
+	//  2  the same, but signal -> cut-over took longer than the whole retirement budget (slow subscription fetch, waiting
+	//     for the network ...): the virtual clock is advanced past reloadTotalSwitchBudget before the retirement is
+	//     registered, so remainingReloadRetirementBudget is exhausted
+	mode := 0
+	if !h.sc.canonical(rt.owner) {
+		mode = vsched.ChooseFree(3, "retirement-environment")
+	}
+	if mode == 2 {
+		vtime.Sleep(reloadTotalSwitchBudget + vtime.Second)
+	}
+	h.retireModes[mode]++
+	old := control.VerifC20RetiringPlane(func() { h.retireGate(rt) }, mode != 0)
+	h.m.startControlPlaneRetirement(h.log, old, nil, func() { rt.cancelled = true }, false, mode != 0)
 }
 
 func (h *c20H) retireGate(rt *c20Retire) {
@@ -886,8 +902,8 @@ func c20Check(r *vsched.Result) (string, any) {
 
 func c20Outcome(r *vsched.Result) string {
 	h := c20Cur
-	return fmt.Sprintf("acc=%d ref=%d drop=%d swallowed=%d paths=%v code=%c wait=%v retire=%d", h.accepted, h.refused, h.dropped,
-		h.delivered-h.sigSeen, h.pathsTaken, h.code, h.waitOutcomes, len(h.retire))
+	return fmt.Sprintf("acc=%d ref=%d drop=%d swallowed=%d paths=%v code=%c wait=%v retire=%v", h.accepted, h.refused, h.dropped,
+		h.delivered-h.sigSeen, h.pathsTaken, h.code, h.waitOutcomes, h.retireModes)
 }
 
 // ---- exported to main -----------------------------------------------------------------------------------------
@@ -930,7 +946,7 @@ func VerifC20Scenarios(thorough bool) []*vsched.Scenario {
 			Check:     c20Check,
 			Outcome:   c20Outcome,
 			MaxSteps:  6000,
-			HorizonNs: int64(2 * vtime.Hour),
+			HorizonNs: int64(30 * vtime.Minute),
 		})
 	}
 	return out
